@@ -7,16 +7,27 @@
 // All values are written in order with the real OctetsWriter / OctetsStream, Bytes() is printed, then the matching
 // read calls are made in order with the real OctetsReader / OctetsStream:
 //
-//	bytes=<hex> | <t>:<value>@<Position()> ... | len=<Len()> pos=<Position()>
+//	bytes=<hex> | <t>:<value>@<Position()> ... | len=<Len()> pos=<Position()> | alias=ok
+//
+// Alias phase (values the caller keeps must stay what was written; the stream must not keep the caller's buffers):
+//  1. after the writes the caller's input slices of WriteBytes / WriteString (a zero-copy string over a caller buffer) /
+//     stream.Write are overwritten: Bytes() must not change;
+//  2. every decoded string and byte slice is kept; after the reads: Tidy() + Write(0xEE block as long as the data), then
+//     Reset() + Write(0xDD block): the kept values must still equal what was written;
+//  3. on a second fresh stream only the first half of the values is read, then Tidy() (memmove of the unread rest over the
+//     consumed region): kept values must be unchanged and the remaining reads must give the same results as before.
+// `alias=FAIL <what>#<index of the value>` names the first violation. (The model has value semantics: always `alias=ok`.)
 //
 // A second line form, `range32 <block>`, covers 2^16 consecutive int32 values with one CRC (see range.go).
 package main
 
 import (
+	"bytes"
 	"encoding/hex"
 	"fmt"
 	"strconv"
 	"strings"
+	"unsafe"
 
 	"github.com/lixianmin/got/iox"
 	"verif/harness/hx"
@@ -76,47 +87,68 @@ func splitToks(line string) []tok {
 	return out
 }
 
-func writeOne(w *iox.OctetsWriter, k tok) error {
+// writeOne writes one value; the caller-owned buffer handed to the writer (if any) is returned so that the alias phase
+// can overwrite it afterwards.
+func writeOne(w *iox.OctetsWriter, k tok) ([]byte, error) {
 	switch k.t {
 	case "b":
-		return w.WriteBool(k.p == "1")
+		return nil, w.WriteBool(k.p == "1")
 	case "y":
-		return w.WriteByte(unhex(k.p)[0])
+		return nil, w.WriteByte(unhex(k.p)[0])
 	case "h":
 		v, err := strconv.ParseInt(k.p, 10, 16)
 		if err != nil {
 			panic(err)
 		}
-		return w.WriteInt16(int16(v))
+		return nil, w.WriteInt16(int16(v))
 	case "i":
 		v, err := strconv.ParseInt(k.p, 10, 32)
 		if err != nil {
 			panic(err)
 		}
-		return w.WriteInt32(int32(v))
+		return nil, w.WriteInt32(int32(v))
 	case "l":
 		v, err := strconv.ParseInt(k.p, 10, 64)
 		if err != nil {
 			panic(err)
 		}
-		return w.WriteInt64(v)
+		return nil, w.WriteInt64(v)
 	case "v":
 		v, err := strconv.ParseInt(k.p, 10, 32)
 		if err != nil {
 			panic(err)
 		}
-		return w.Write7BitEncodedInt(int32(v))
+		return nil, w.Write7BitEncodedInt(int32(v))
 	case "B":
-		return w.WriteBytes(unhex(k.p))
+		in := unhex(k.p)
+		return in, w.WriteBytes(in)
 	case "S":
-		return w.WriteString(string(unhex(k.p)))
+		// a string that shares memory with a caller buffer (what convert.String produces)
+		in := unhex(k.p)
+		return in, w.WriteString(unsafe.String(unsafe.SliceData(in), len(in)))
 	case "R":
-		return w.Stream().Write(unhex(k.p))
+		in := unhex(k.p)
+		return in, w.Stream().Write(in)
 	}
 	panic("bad type tag " + k.t)
 }
 
-func readOne(r *iox.OctetsReader, k tok) (out string) {
+// kept is a decoded string / byte slice the caller holds on to
+type kept struct {
+	idx int
+	s   *string
+	b   []byte
+	isB bool
+}
+
+func (k kept) equal(want []byte) bool {
+	if k.isB {
+		return bytes.Equal(k.b, want)
+	}
+	return *k.s == string(want)
+}
+
+func readOne(r *iox.OctetsReader, k tok, idx int, keep *[]kept) (out string) {
 	defer func() {
 		if e := recover(); e != nil {
 			out = "panic"
@@ -156,10 +188,16 @@ func readOne(r *iox.OctetsReader, k tok) (out string) {
 		var v []byte
 		v, err = r.ReadBytes()
 		s = hexOf(v)
+		if err == nil && keep != nil {
+			*keep = append(*keep, kept{idx: idx, b: v, isB: true})
+		}
 	case "S":
 		var v string
 		v, err = r.ReadString()
 		s = hexOf([]byte(v))
+		if err == nil && keep != nil {
+			*keep = append(*keep, kept{idx: idx, s: &v})
+		}
 	case "R":
 		n := len(unhex(k.p))
 		buf := make([]byte, n)
@@ -178,33 +216,145 @@ func readOne(r *iox.OctetsReader, k tok) (out string) {
 	return s
 }
 
+func fill(n int, b byte) []byte {
+	if n < 1 {
+		n = 1
+	}
+	out := make([]byte, n)
+	for i := range out {
+		out[i] = b
+	}
+	return out
+}
+
+func checkKept(ks []kept, want [][]byte, what string) string {
+	for _, k := range ks {
+		if !k.equal(want[k.idx]) {
+			return fmt.Sprintf("FAIL %s#%d", what, k.idx)
+		}
+	}
+	return ""
+}
+
 func exec(c *hx.Ctx, line string) string {
 	if strings.HasPrefix(line, "range32 ") {
 		return execRange(strings.TrimSpace(line[8:]))
 	}
 	toks := splitToks(line)
+	want := make([][]byte, len(toks)) // private copies of the byte payloads that were written
+	for i, k := range toks {
+		if k.t == "B" || k.t == "S" || k.t == "R" {
+			want[i] = unhex(k.p)
+		}
+	}
 	stream := &iox.OctetsStream{}
 	w := iox.NewOctetsWriter(stream)
-	for _, k := range toks {
-		if err := writeOne(w, k); err != nil {
+	inputs := make([][]byte, len(toks))
+	for i, k := range toks {
+		in, err := writeOne(w, k)
+		if err != nil {
 			return "bytes=write-error-" + errName(err)
+		}
+		inputs[i] = in
+	}
+	wire := append([]byte(nil), stream.Bytes()...)
+	alias := ""
+	// alias 1: the caller reuses its input buffers
+	for _, in := range inputs {
+		for j := range in {
+			in[j] ^= 0xff
+		}
+	}
+	if !bytes.Equal(stream.Bytes(), wire) {
+		alias = "FAIL write-input"
+		for i, in := range inputs {
+			if len(in) > 0 {
+				alias = fmt.Sprintf("FAIL write-input#%d", i)
+				break
+			}
 		}
 	}
 	var sb strings.Builder
 	sb.WriteString("bytes=")
-	sb.WriteString(hexOf(stream.Bytes()))
+	sb.WriteString(hexOf(wire))
 	sb.WriteString(" |")
 	r := iox.NewOctetsReader(stream)
-	for _, k := range toks {
+	var keep []kept
+	texts := make([]string, len(toks))
+	for i, k := range toks {
+		texts[i] = readOne(r, k, i, &keep)
 		sb.WriteByte(' ')
 		sb.WriteString(k.t)
 		sb.WriteByte(':')
-		sb.WriteString(readOne(r, k))
+		sb.WriteString(texts[i])
 		sb.WriteByte('@')
 		sb.WriteString(strconv.Itoa(stream.Position()))
 	}
 	fmt.Fprintf(&sb, " | len=%d pos=%d", stream.Len(), stream.Position())
+	if alias == "" {
+		alias = hx.SafeExec(func() string { return aliasPhase(toks, want, stream, keep, texts, len(wire)) })
+		if strings.HasPrefix(alias, "panic") {
+			alias = "FAIL panic"
+		}
+	}
+	if alias == "" {
+		alias = "ok"
+	}
+	sb.WriteString(" | alias=")
+	sb.WriteString(alias)
 	return sb.String()
+}
+
+// aliasPhase: see the file comment. Returns "" or "FAIL <what>#<index>".
+func aliasPhase(toks []tok, want [][]byte, stream *iox.OctetsStream, keep []kept, texts []string, n int) string {
+	// the values as decoded (sanity of the bookkeeping; a difference here is also a round-trip failure)
+	if f := checkKept(keep, want, "kept-value"); f != "" {
+		return f
+	}
+	// alias 2: compaction / reuse of the stream after the reads
+	stream.Tidy()
+	_ = stream.Write(fill(n, 0xEE))
+	if f := checkKept(keep, want, "tidy+write"); f != "" {
+		return f
+	}
+	stream.Reset()
+	_ = stream.Write(fill(n, 0xDD))
+	if f := checkKept(keep, want, "reset+write"); f != "" {
+		return f
+	}
+	if len(toks) < 2 {
+		return ""
+	}
+	// alias 3: Tidy in the middle of the sequence (memmove of the unread rest over the consumed region)
+	s2 := &iox.OctetsStream{}
+	w2 := iox.NewOctetsWriter(s2)
+	for _, k := range toks {
+		if _, err := writeOne(w2, k); err != nil {
+			return "FAIL rewrite"
+		}
+	}
+	r2 := iox.NewOctetsReader(s2)
+	half := (len(toks) + 1) / 2
+	var keep2 []kept
+	for i := 0; i < half; i++ {
+		if t := readOne(r2, toks[i], i, &keep2); t != texts[i] {
+			return fmt.Sprintf("FAIL reread#%d", i)
+		}
+	}
+	s2.Tidy()
+	if f := checkKept(keep2, want, "tidy-memmove"); f != "" {
+		return f
+	}
+	for i := half; i < len(toks); i++ {
+		if t := readOne(r2, toks[i], i, &keep2); t != texts[i] {
+			return fmt.Sprintf("FAIL read-after-tidy#%d", i)
+		}
+	}
+	_ = s2.Write(fill(n, 0xEE))
+	if f := checkKept(keep2, want, "tidy+read+write"); f != "" {
+		return f
+	}
+	return ""
 }
 
 func main() { hx.Main(gen, exec) }
